@@ -66,17 +66,22 @@ example :
      | some s => s.delivered.map (fun e => (e.g, e.i)) == [(0, 0), (0, 1)] && s.dropped.map (fun e => (e.g, e.i)) == [(1, 0)]
      | none => false) = true := by decide
 
-/-- `PostEvent` is the non-blocking `select … default`, `PostEventBlocking` the bare send. -/
+/-- `PostEvent` is the non-blocking `select … default`, `PostEventBlocking` the bare send, and
+neither hands the send to another goroutine (which would break the per-poster order). -/
 theorem post_shapes :
-    Gen.Conc.stmts_PostEventBlocking = ["vx.queue <- ev"] ∧
-    Gen.Conc.stmts_PostEvent.getLast? = some "select { case vx.queue <- ev: return default: log.Warn(\"Event dropped: %T\", ev) }" := by
-  decide +kernel
+    Gen.Conc.postKinds = [("PostEvent", ["nonblocking"]), ("PostEventBlocking", ["blocking"])] := by decide +kernel
 
 /-- Lock order: over every lock site of vaxis.go, vaxis_unix.go, writer.go, window.go,
-ansi/parser.go and the spinner (regenerated on every run, calls followed three levels deep), no
-mutex is acquired while another one — or the same one — is held.  In particular `Vaxis.mu`,
-`writer.mut` and `Parser.mu` are never nested in opposite orders. -/
-theorem lock_order : allNested Gen.Conc.lockSites = [] := by decide +kernel
+ansi/parser.go and the spinner (regenerated on every run, calls followed three levels deep), the
+"acquired while holding" relation has no self-loop (Go mutexes are not re-entrant) and no pair in
+both directions: `Vaxis.mu`, `writer.mut`, `Parser.mu` and the spinner's mutex are never held nested
+in opposite orders. -/
+theorem lock_order :
+    ∀ p ∈ allNested Gen.Conc.lockSites, p.1 ≠ p.2 ∧ (p.2, p.1) ∉ allNested Gen.Conc.lockSites := by decide +kernel
+
+/-- Non-vacuity of the lock-order computation: an inversion is found when there is one. -/
+example : allNested [("a.f", ["L:A", "C:g", "U:A"]), ("b.g", ["L:B", "D:B", "C:h"]), ("c.h", ["L:A", "U:A"])]
+    = [("A", "B"), ("A", "A"), ("B", "A")] := by decide +kernel
 
 /-- The input goroutine reads from the parser it was started for (a local), not from the field
 `vx.parser`, which `Resume` replaces (F110 repaired): the goroutine of a suspended session cannot
